@@ -739,8 +739,8 @@ class VM:
                     cur.has(key_str)
                     or key_str in cur._getters
                     or key_str in cur._setters
-                    or (isinstance(cur, JSArray) and key_str.isdigit()
-                        and int(key_str) < len(cur._elements))
+                    or (isinstance(cur, JSArray)
+                        and 0 <= self._array_index(key_str) < len(cur._elements))
                 )
                 cur = getattr(cur, "_prototype", None)
             self.stack.append(found)
@@ -1104,7 +1104,12 @@ class VM:
     def _array_index(key_str: str) -> int:
         """The element index a property name denotes, -1 if it is not one: only the
         canonical decimal text of a non-negative integer ("1", not "01", " 1", "+1")."""
-        if key_str.isascii() and key_str.isdigit() and (key_str == "0" or key_str[0] != "0"):
+        if (
+            len(key_str) <= 21  # beyond 1e21 no integer is spelled in digits alone (and int() refuses more than 4300 of them)
+            and key_str.isascii()
+            and key_str.isdigit()
+            and (key_str == "0" or key_str[0] != "0")
+        ):
             return int(key_str)
         return -1
 
